@@ -1343,12 +1343,19 @@ func (s *Set) SymmetricDifference(other Iterator) (Value, error) {
 	diff := s.clone()
 	var x Value
 	for other.Next(&x) {
-		found, err := diff.Delete(x)
+		// Test x against s, not diff, so that an element that
+		// other yields twice is not toggled back.
+		found, err := s.Has(x)
 		if err != nil {
 			return nil, err
 		}
-		if !found {
-			diff.Insert(x) // can't fail
+		if found {
+			_, err = diff.Delete(x)
+		} else {
+			err = diff.Insert(x)
+		}
+		if err != nil {
+			return nil, err
 		}
 	}
 	return diff, nil
